@@ -4,18 +4,25 @@
    code in /repo.
 
    What the kernel answers is an argument: the process table [t] as the fake /proc
-   lists it at the time of the call (listing order), and the list [gone] of PIDs
-   whose directory disappears after ppid_map() took its snapshot and before
-   Process(pid) is constructed for them.  Times are start ticks since boot
+   lists it at the time of the call (listing order), and the PIDs that vanish while the
+   call runs: [gone] = directories that disappear before the call has read that
+   process's create_time() (for children(): before ppid_map() reads its stat file, or
+   between the snapshot and Process(pid), or between Process(pid) and
+   child.create_time() -- the three points give the same answer, the harness exercises
+   each; for parent(): before Process(ppid) or before parent.create_time());
+   [goneb] = ancestors that vanish after parents() has appended them and before their
+   own parent link has been read.  Times are start ticks since boot
    (Process identity, commit 5d0422d); create_time() = ticks/CLK + boot time is
    strictly monotone in the ticks for a constant boot time, so the [<=] tests of the
    code are modelled on ticks (float layer trusted, see notes).
 
-   The three booleans of [fixes] stand for the three repairs found with this check and
+   The first three booleans of [fixes] stand for the three repairs found with this check and
    committed to /repo (6afb079 children() never returns the caller, 3959fba parent()
    checks the caller's identity first, e202d3b parents() keeps a seen set):
    [as_is] (all true) = the code as it is now, [before_fixes] = the code before them
-   (kept so that the old defects stay stated, and reverting a repair is modelled). *)
+   (kept so that the old defects stay stated, and reverting a repair is modelled).
+   [fx_parents_nsp] is the proposed repair notes/fixes/C05-parents-vanished-ancestor.diff
+   (not in /repo: false in [as_is]). *)
 From PV Require Export Base.Prelude.
 
 Record kproc := { kp_pid : Z; kp_ppid : Z; kp_start : Z }.
@@ -23,9 +30,14 @@ Definition table := list kproc.
 
 Record fixes := { fx_skip_self : bool;       (* children(): never yield the caller itself *)
                   fx_parents_seen : bool;    (* parents(): stop at the first repeated PID *)
-                  fx_parent_reuse : bool }.  (* parent(): identity pre-check before the lowest-PID stop *)
-Definition as_is : fixes := {| fx_skip_self := true; fx_parents_seen := true; fx_parent_reuse := true |}.
-Definition before_fixes : fixes := {| fx_skip_self := false; fx_parents_seen := false; fx_parent_reuse := false |}.
+                  fx_parent_reuse : bool;    (* parent(): identity pre-check before the lowest-PID stop *)
+                  fx_parents_nsp : bool }.   (* parents(): an ancestor that vanished mid-walk ends the chain *)
+Definition as_is : fixes :=
+  {| fx_skip_self := true; fx_parents_seen := true; fx_parent_reuse := true; fx_parents_nsp := false |}.
+Definition before_fixes : fixes :=
+  {| fx_skip_self := false; fx_parents_seen := false; fx_parent_reuse := false; fx_parents_nsp := false |}.
+Definition with_nsp_fix : fixes :=
+  {| fx_skip_self := true; fx_parents_seen := true; fx_parent_reuse := true; fx_parents_nsp := true |}.
 
 (* the caller: a Process object created earlier.  [o_ident] = start ticks read by
    _get_ident() when it was created; [o_ctime] = the create_time() cache
@@ -139,14 +151,14 @@ Definition ppid_call (t : table) (o : pobj) : outcome Z :=
   end.
 
 (* Process.parent(): Some (pid, start ticks of the returned object) or None *)
-Definition parent (fx : fixes) (t : table) (cache : option Z) (o : pobj) : outcome (option (Z * Z)) :=
+Definition parent (fx : fixes) (t : table) (gone : list Z) (cache : option Z) (o : pobj) : outcome (option (Z * Z)) :=
   do _ <- (if fx_parent_reuse fx then raise_if_pid_reused t o else Val tt);
   do low <- lowest_pid t cache;
   if o_pid o =? low then Val None
   else
     do pp <- ppid_call t o;
     do c <- self_ctime t o;
-    match proc_new t [] pp with
+    match proc_new t gone pp with
     | Val ps => if ps <=? c then Val (Some (pp, ps)) else Val None
     | Exc NoSuchProcess => Val None
     | Exc e => Exc e
@@ -163,9 +175,13 @@ Definition cache_after (t : table) (cache : option Z) : option Z :=
   | None => match min_pid t with Val m => Some m | _ => None end
   end.
 
-(* parents(): proc = self.parent(); while proc is not None: append; proc = proc.parent()
-   one unit of fuel per loop test; None = fuel exhausted *)
-Fixpoint parents_loop (fx : fixes) (t : table) (cache : option Z) (fuel : nat)
+(* the table as a process that has just vanished leaves it *)
+Definition remove_pid (q : Z) (t : table) : table := filter (fun e => negb (kp_pid e =? q)) t.
+
+(* parents(): proc = self.parent(); while proc is not None [and proc.pid not in seen]:
+   append; proc = proc.parent().  One unit of fuel per loop test; None = fuel exhausted.
+   An ancestor in [goneb] has vanished when its parent() is called. *)
+Fixpoint parents_loop (fx : fixes) (t : table) (gone goneb : list Z) (cache : option Z) (fuel : nat)
          (seen : list Z) (cur : option (Z * Z)) (acc : list Z) : outcome (option (list Z)) :=
   match cur with
   | None => Val (Some acc)
@@ -174,12 +190,16 @@ Fixpoint parents_loop (fx : fixes) (t : table) (cache : option Z) (fuel : nat)
       else match fuel with
            | O => Val None
            | S f =>
-               do nxt <- parent fx t cache (obj_of ps);
-               parents_loop fx t cache f (fst ps :: seen) nxt (acc ++ [fst ps])
+               match parent fx (if memz (fst ps) goneb then remove_pid (fst ps) t else t) gone cache (obj_of ps) with
+               | Val nxt => parents_loop fx t gone goneb cache f (fst ps :: seen) nxt (acc ++ [fst ps])
+               | Exc NoSuchProcess => if fx_parents_nsp fx then Val (Some (acc ++ [fst ps])) else Exc NoSuchProcess
+               | Exc e => Exc e
+               | OutOfModel => OutOfModel
+               end
            end
   end.
 
-Definition parents (fx : fixes) (fuel : nat) (t : table) (cache : option Z) (o : pobj)
+Definition parents (fx : fixes) (fuel : nat) (t : table) (gone goneb : list Z) (cache : option Z) (o : pobj)
   : outcome (option (list Z)) :=
-  do first <- parent fx t cache o;
-  parents_loop fx t (cache_after t cache) fuel [o_pid o] first [].
+  do first <- parent fx t gone cache o;
+  parents_loop fx t gone goneb (cache_after t cache) fuel [o_pid o] first [].
